@@ -42,6 +42,23 @@ def run(ck):
                   "%s.%s ignores the polarity of the constraint (neither the class nor `operator` takes part): `c == 0` and `c != 0` "
                   "collapse to one member of a constraint set" % (cname, meth))
     ck.rule("R3", "n-ary nodes: Cartesian product of alternatives, union of constraints", floor=4)
+    ck.rule("R5", "the container of alternatives is a plain set: it does not redefine how members are added, merged or compared", floor=2)
+    # possible_values fills its result through add() / update(): alternatives are distinct (constraints, value) pairs, and two alternatives
+    # with the same value reached under different constraints must both stay (merging them keeps a constraint set that none of the paths
+    # guarantees).  The container class may add presentation methods only; the tuple class must keep the namedtuple equality.
+    SET_API = set(["add", "update", "__ior__", "__or__", "union", "__iand__", "intersection_update", "discard", "remove", "pop", "__contains__",
+                   "__iter__", "__len__", "__eq__", "__hash__", "copy", "__init__", "__new__"])
+    rc = m.cls("ConstrainedValues")
+    bases = [norm(b) for b in rc.bases]
+    ck.ob("R5", "ConstrainedValues:is-a-set", bases == ["set"], m.where(rc), "ConstrainedValues derives from %s, expected the built-in set" % bases)
+    over = sorted(st.name for st in rc.body if isinstance(st, ast.FunctionDef) and st.name in SET_API)
+    ck.ob("R5", "ConstrainedValues:set-api-untouched", not over, m.where(rc),
+          "ConstrainedValues redefines %s: alternatives added by possible_values can be merged, dropped or compared differently from plain "
+          "(constraints, value) pairs" % over)
+    cv = m.assigns.get("ConstrainedValue")
+    ok = isinstance(cv, ast.Call) and dotted(cv.func) in ("collections.namedtuple", "namedtuple") and len(cv.args) >= 2 and \
+        isinstance(cv.args[1], (ast.List, ast.Tuple)) and [getattr(e, "value", None) for e in cv.args[1].elts] == ["constraints", "value"]
+    ck.ob("R5", "ConstrainedValue:pair", ok, m.where(cv) if cv is not None else REL, "ConstrainedValue is not the plain (constraints, value) named tuple")
 
     branches = {}
     for n in walk_body(fn):
